@@ -15,6 +15,7 @@ import re
 from typing import Dict, List, Optional, Set, Tuple
 
 from .. import visitors as V
+from ..cfg import CFG
 from ..model import (AnalysisError, FuncInfo, Repo, const_str, dotted, norm,
                      walk_no_nested)
 
@@ -251,6 +252,9 @@ def run(repo: Repo, ctx, grammar_modules=None, rule_prefix='C01',
             f'only {n_sites} grammar construction sites evaluated', '',
             sample=f'{n_sites} productions partially evaluated against '
                    f'their visitor')
+
+    if only_rules is None or 'R7' in only_rules:
+        rewritten_node_rule(repo, ctx, gen, R('R7'))
 
     if rule_prefix != 'C01':
         return
@@ -666,3 +670,66 @@ def _always_parens(f) -> bool:
     closes = [i for i, st in enumerate(body) if lit(st, ')')]
     return bool(opens) and bool(closes) and opens[0] <= 2 and \
         closes[-1] == len(body) - 1
+
+
+def rewritten_node_rule(repo: Repo, ctx, gen, rule: str) -> None:
+    """A visitor that replaces its node by a rewritten copy
+    (`node = self._helper(node)` where the helper returns
+    node.replace(F=...)) takes every decision about F on the rewritten node:
+    a value computed from node.F before the rebinding describes a node that
+    is not the one printed."""
+    ctx.floor(rule, 3)
+    changes = {}
+    for name, h in gen.methods.items():
+        flds = set()
+        for c in ast.walk(h.node):
+            if isinstance(c, ast.Call) and isinstance(c.func, ast.Attribute) \
+                    and c.func.attr == 'replace' and isinstance(
+                        c.func.value, ast.Name) and c.func.value.id in \
+                    h.params():
+                flds |= {k.arg for k in c.keywords if k.arg}
+        rets_param = any(isinstance(r, ast.Return) and r.value is not None
+                         and isinstance(r.value, (ast.Call, ast.Name))
+                         for r in ast.walk(h.node))
+        if flds and rets_param:
+            changes[name] = flds
+    n_sites = 0
+    for name, f in sorted(gen.methods.items()):
+        for a in walk_no_nested(f.node):
+            if not (isinstance(a, ast.Assign) and len(a.targets) == 1
+                    and isinstance(a.targets[0], ast.Name)
+                    and isinstance(a.value, ast.Call)
+                    and isinstance(a.value.func, ast.Attribute)
+                    and norm(a.value.func.value) == 'self'
+                    and a.value.func.attr in changes
+                    and len(a.value.args) == 1
+                    and norm(a.value.args[0]) == a.targets[0].id):
+                continue
+            var = a.targets[0].id
+            flds = changes[a.value.func.attr]
+            n_sites += 1
+            g = CFG(f.node)
+            rb = g.nodes_of(a)
+            stale = []
+            for n in g.nodes:
+                if n.kind not in ('stmt', 'test') or n.id in rb:
+                    continue
+                for x in g.node_exprs(n) if hasattr(g, 'node_exprs') else []:
+                    for at in ast.walk(x):
+                        if isinstance(at, ast.Attribute) and at.attr in flds \
+                                and norm(at.value) == var and isinstance(
+                                    at.ctx, ast.Load):
+                            if rb and not g.always_before(n.id, rb):
+                                stale.append((at.attr, getattr(
+                                    n.ast, 'lineno', 0)))
+            ctx.ob(rule, f'{name}:{a.value.func.attr}', not stale,
+                   f'{name} reads {var}.{sorted({s_ for s_, _ in stale})} '
+                   f'before `{norm(a)[:50]}` replaces the node: the '
+                   f'decision is taken on a node without the rewritten '
+                   f'{sorted(flds)} (for pointers: the EXTENDING bases moved '
+                   f'into the command block), so the clause it guards is '
+                   f'printed for the wrong node or not at all', f.loc,
+                   sample=f'all reads of {sorted(flds)} after the rebinding')
+    if n_sites < 3:
+        raise AnalysisError(f'{rule}: node-rewriting visitors not found '
+                            f'({n_sites})')
